@@ -70,8 +70,15 @@ def auds_of(stypes):
     return ",".join(H.canonical_aud_for(s).hex() for s in stypes) or "-"
 
 
-def inject_line(stream, rpus, no_add_aud=False, start_code=None, drop=False):
-    items = F.items_of(stream)
+def trailing_items(trailing, nframes):
+    """NALs behind the last slice of a stream (an AUD, a prefix SEI, VPS/SPS/PPS ...): hevc_parser labels them with
+    the frame count (`decoded_frame_index == ordered_frames().len()`); `trailing`: iterable of hevcgen.Nal"""
+    return [(n.type, n.data, nframes, k == 0) for k, n in enumerate(trailing)]
+
+
+def inject_line(stream, rpus, no_add_aud=False, start_code=None, drop=False, trailing=()):
+    """trailing: NALs that follow the last access unit of `stream` in the file (see trailing_items)"""
+    items = F.items_of(stream) + trailing_items(trailing, len(stream.aus))
     return "hevc.inject %s %d %s %s %s %s" % (
         _flags(no_add_aud=no_add_aud, annexb=start_code == "annex-b", drop=drop), len(stream.aus),
         ",".join(str(p) for p in stream.pres()) or "-", auds_of([au.spec.stype for au in stream.aus]),
@@ -79,15 +86,39 @@ def inject_line(stream, rpus, no_add_aud=False, start_code=None, drop=False):
 
 
 def mux_line(bl_aus, el_frames, conv, key=None, no_add_aud=False, eos_before_el=False, discard=False,
-             start_code=None, drop=False):
-    """bl_aus: [(slice type, [(type, bytes)..])] per BL frame; el_frames: [[(type, bytes)..]] per EL frame"""
+             start_code=None, drop=False, bl_trailing=()):
+    """bl_aus: [(slice type, [(type, bytes)..])] per BL frame; el_frames: [[(type, bytes)..]] per EL frame;
+    bl_trailing: NALs that follow the last access unit of the BL file (see trailing_items).  The frame count of the
+    BL (every BL frame holds a slice) is part of the line: `Muxer::finalize` compares the last frame buffer's number
+    with it."""
     bl = [(t, d, k) for k, (_, nals) in enumerate(bl_aus) for t, d in nals]
+    bl += [it[:3] for it in trailing_items(bl_trailing, len(bl_aus))]
     el = [(t, d, k) for k, fr in enumerate(el_frames) for t, d in fr]
     rpus = [d for t, d, _ in el if t == H.UNSPEC62]
-    return "hevc.mux %s %s %s %s %s" % (
+    return "hevc.mux %s %d %s %s %s %s" % (
         _flags(conv=key is not None, discard=discard, annexb=start_code == "annex-b", drop=drop, no_add_aud=no_add_aud,
-               eos_before_el=eos_before_el),
+               eos_before_el=eos_before_el), len(bl_aus),
         auds_of([s for s, _ in bl_aus]), conv_str(conv, key, rpus), items_str(bl), items_str(el))
+
+
+TRAILING_KINDS = ("aud", "aud+psei", "params")
+
+
+def gen_trailing(rng, codec, kind, stype=None, sc=4):
+    """NALs to append behind the last slice of a stream: an AUD; an AUD and a prefix SEI; VPS SPS PPS"""
+    stype = H.SLICE_I if stype is None else stype
+    if kind == "aud":
+        out = [H.Nal(H.aud_nal(stype, rng.chance(1, 2)), "aud")]
+    elif kind == "aud+psei":
+        out = [H.Nal(H.aud_nal(stype, rng.chance(1, 2)), "aud"),
+               H.Nal(H.sei_nal(H.gen_sei_messages(rng, with_hdr=False), H.SEI_PREFIX, 0), "psei")]
+    elif kind == "params":
+        out = codec.param_nals("vsp")
+    else:
+        raise ValueError(kind)
+    for n in out:
+        n.sc = sc if sc in (3, 4) else rng.choice([3, 4])
+    return out
 
 
 def parse_outs(s):
